@@ -578,6 +578,64 @@ def size_source_rule(repo: Repo, rep: Report, rid: str) -> None:
     rep.check(ok, rid, f"{ev.key}:sizeof", detail, detail, ev.loc(arms[0].ast if arms else None))
 
 
+FIXTURE_MEMO = (
+    "def _make_pointer(self, target):\n"
+    "    if (ptr := self._cache.get(target)) is None:\n"
+    "        ptr = self._cache[target] = self._make_type(target.__name__, (Pointer,), self.pointer.size, alignment=self.pointer.alignment)\n"
+    "    return ptr\n"
+)
+
+
+def _memo_gaps(fn: ast.FunctionDef) -> list[tuple[ast.AST, str, set[str]]]:
+    """Stores of a factory's result into a mapping on the instance whose key leaves out instance state the result was computed from."""
+    me = fn.args.args[0].arg if fn.args.args else "self"
+    out = []
+    stores = []
+    for st in walk_body(fn.body):
+        if isinstance(st, ast.Assign):
+            for t in st.targets:
+                if isinstance(t, ast.Subscript) and (chain(t.value) or ("",))[0] == me:
+                    stores.append((st, t))
+        elif isinstance(st, ast.Call) and isinstance(st.func, ast.Attribute) and st.func.attr == "setdefault" and (chain(st.func.value) or ("",))[0] == me and st.args:
+            stores.append((st, ast.Subscript(value=st.func.value, slice=st.args[0], ctx=ast.Store())))
+    if not stores:
+        return out
+    memo_attrs = {(chain(t.value) or ("", ""))[1] for _, t in stores if len(chain(t.value) or ()) > 1}
+    state = set()
+    for x in walk_body(fn.body):
+        if isinstance(x, ast.Attribute) and isinstance(x.value, ast.Name) and x.value.id == me and isinstance(x.ctx, ast.Load):
+            if x.attr in memo_attrs or x.attr.startswith("_make_") or x.attr in ("_make_type", "resolve"):
+                continue
+            state.add(x.attr)
+    for st, t in stores:
+        key_attrs = {x.attr for x in ast.walk(t.slice) if isinstance(x, ast.Attribute) and isinstance(x.value, ast.Name) and x.value.id == me}
+        missing = state - key_attrs
+        if missing:
+            out.append((st, norm(t.value), missing))
+    return out
+
+
+def memo_key_rule(repo: Repo, rep: Report, rid: str) -> None:
+    rep.rule(rid, "a type factory that memoises its result on the cstruct instance keys the memo by every piece of instance state the type's size / "
+                  "alignment was computed from (e.g. the configured pointer type): otherwise a type created under an earlier configuration is handed out "
+                  "with a stale size")
+    fx = _memo_gaps(ast.parse(FIXTURE_MEMO).body[0])
+    if len(fx) != 1 or fx[0][2] != {"pointer"}:
+        raise AnalysisError("memo-key matcher no longer recognises its positive fixture")
+    rep.ok(rid, "fixture:_make_pointer memo keyed by target only", "matcher recognises the positive fixture", "", nontrivial=False)
+    n = 0
+    for fi in repo.cls("cstruct").methods.values():
+        if not fi.name.startswith("_make_"):
+            continue
+        n += 1
+        gaps = _memo_gaps(fi.node)
+        rep.check(not gaps, rid, f"{fi.key}:memo-key", "no memo, or a memo keyed by all the instance state it depends on",
+                  f"{fi.qualname} memoises its result in '{gaps[0][1] if gaps else ''}' but the key leaves out self.{sorted(gaps[0][2]) if gaps else ''}, which "
+                  "the size / alignment of the created type is computed from: after that configuration changes the stale type (old size) is reused while "
+                  "reading and writing follow the new configuration", fi.loc(gaps[0][0]) if gaps else fi.loc())
+    rep.floor(rid, "type factories", n, 6)
+
+
 def run(repo: Repo, rep: Report, tier: str) -> None:
     type_table_rule(repo, rep, "C04.R1")
     provenance_rule(repo, rep, "C04.R2")
@@ -589,3 +647,9 @@ def run(repo: Repo, rep: Report, tier: str) -> None:
 
     align_flag_rule(repo, rep, "C04.R6")
     offsets_before_compile_rule(repo, rep, "C04.R7")
+    memo_key_rule(repo, rep, "C04.R8")
+    from .c02 import flush_rule
+    from .c11 import size_rule
+
+    flush_rule(repo, rep, "C04.R9")
+    size_rule(repo, rep, "C04.R10")
